@@ -12,6 +12,8 @@ pub struct Report {
     pub tier: String,
     pub seed: i64,
     pub level: String,
+    /// a quiet report only counts; used when already-checked prefixes are replayed
+    pub quiet: bool,
     start: Instant,
     inner: Mutex<Inner>,
 }
@@ -65,10 +67,16 @@ impl Report {
             tier,
             seed,
             level: level.to_string(),
+            quiet: false,
             start: Instant::now(),
             inner: Mutex::new(Inner::default()),
         };
         r.inner.lock().unwrap().findings = load_findings(property);
+        r
+    }
+    pub fn quiet(property: &str) -> Report {
+        let mut r = Report::new(property, "other");
+        r.quiet = true;
         r
     }
     pub fn thorough(&self) -> bool {
@@ -124,6 +132,9 @@ impl Report {
     pub fn violation(&self, kind: &str, detail: Value) {
         let mut g = self.inner.lock().unwrap();
         g.violations += 1;
+        if self.quiet {
+            return;
+        }
         let seen = g.printed_violation_kinds.entry(kind.to_string()).or_insert(0);
         *seen += 1;
         // keep at most 5 replay files per kind and 40 overall, the rest are only counted
